@@ -412,13 +412,17 @@ open Cocls.Mutex (Elem Seen Flavour Rel Round AKind Cfg Pc TMain Ev Outcome upd 
 variable {c : Cfg}
 
 /-- **No access to a dead node, to null or to the doorman.**  Along every permitted activity list and along every schedule
-    of enabled OS threads the ghost flag `viol` stays clear: every `_next` read/write of `subscribe`, of the loop of
-    `build_queue`, of `unlock`, and the read of the awaiter by `resume()`, touches a request node that is alive at that
-    moment. -/
+    of enabled OS threads the ghost flag `viol` stays clear — and it stays clear under the next activity of *any* agent on
+    any thread from such a state: every `_next` read/write of `subscribe`, of the loop of `build_queue`, of `unlock`, and the
+    read of the awaiter by `resume()`, touches a request node that is alive at that moment. -/
 theorem c07_no_dead_access_ptr (wf : Nat) (hwf : c.n ≤ wf) :
-    (∀ l, Mutex.Guarded c (Mutex.init c) l → (arun c wf (init c) l).viol = false) ∧
-    (c.WFT → ∀ fuel ts, Mutex.TGuarded c fuel (Mutex.init c) ts → (trun c wf fuel (init c) ts).viol = false) :=
-  ⟨fun l hg => (repr_run wf hwf l hg).2.noViol, fun hw fuel ts hg => (trun_init_sim hw wf hwf fuel ts hg).1.2.noViol⟩
+    (∀ l, Mutex.Guarded c (Mutex.init c) l → (arun c wf (init c) l).viol = false ∧
+      ∀ t a, (agentStep c wf (arun c wf (init c) l) t a).1.viol = false) ∧
+    (c.WFT → ∀ fuel ts, Mutex.TGuarded c fuel (Mutex.init c) ts → (trun c wf fuel (init c) ts).viol = false) := by
+  refine ⟨fun l hg => ⟨(repr_run wf hwf l hg).2.noViol, fun t a => ?_⟩,
+    fun hw fuel ts hg => (trun_init_sim hw wf hwf fuel ts hg).1.2.noViol⟩
+  have hs := Mutex.reachable_of_run c l hg
+  exact (step_no_viol wf (repr_run wf hwf l hg) (Mutex.inv_reachable hs) (by have := queue_length_le hs; omega) t a).1
 
 example : (arun cfgEx 3 (init cfgEx) runZ).viol = false ∧ (trun cfgEx 3 100 (init cfgEx) Mutex.schedZ).viol = false := by decide
 
